@@ -23,7 +23,9 @@ RULE = ("one run = generated firmware (interrupts, WAIT/HALT/OFF, LCD traffic, K
         "crash point k (half steered to interesting states found in the uninterrupted run): the uninterrupted "
         "run and the run restored from the bundle written at k are compared boundary by boundary; non-trivial = "
         "the crash point lies in a non-default state (halted/off/in handler/pending/keys held/LCD written/timer "
-        "within 2 cycles) ; distinct = distinct (scenario, k) hash")
+        "within 2 cycles) ; distinct = distinct (scenario, k) hash; cross batch: the bundle of one implementation is loaded by "
+        "the other and registers, memory, LCD, timers, internal memory and the keyboard (strobes, held keys, debounce "
+        "counters, event queue — filled to capacity in a share of the runs) are compared")
 SCHEDULE_MEASURE = "distinct (scenario, crash point) hashes; crash-state classes in probes"
 COMPONENTS = {
     "real": ["pce500/emulator.py save_snapshot/load_snapshot (real zip files in a per-process scratch dir)",
